@@ -81,3 +81,19 @@ reg("C20", "model_checking",
     "specifications; the documented zero-allocation calls are measured with AllocsPerRun and post-GC heap on a build without instrumentation",
     "Memory is measured in the library's own accounting (MemoryUsage) and by the Go runtime (AllocsPerRun, HeapAlloc after GC).",
     "TLA+ protocol models + trace validation of recorded executions + allocation measurement", "DESIGN.md §6 C20")
+
+reg("C05", "exploration",
+    "Measured, not proved: work (executed basic blocks of library code, read deterministically from coverage counters) of Match/FindIndex/FindSubmatchIndex "
+    "on pumped members u.v^k.w of the TLC-enumerated universe, n = 128..4096/16384; a series violates the property when its log-log slope exceeds 1.35 "
+    "with the last two doubling ratios above 2.4; compile work on pattern-text families must stay polynomial of degree <= 3. The protocol models carry the "
+    "design-level bounds (DFACache!FullResolved, Backtrack!Termination, MatchIter!Termination)",
+    "Work proxy = basic blocks of Go code; assembly kernels are not counted. Inputs are the pumped members of the fixed universe.",
+    "TLC-generated pumped input families; deterministic work counters; growth-rate test", "DESIGN.md §6 C05")
+
+reg("C18", "model_checking",
+    "TLC checks the head / W-lane main loop / tail block-scan model against the one-line scalar definitions of all 14 primitives (results equal, reads inside "
+    "the slice; deliberately broken tail modes are rejected) and generates the abstract cases; every case is replayed unstretched and stretched to the real "
+    "vector widths 16/32/64 against the TLA+ value and a naive loop, on haystacks flush against PROT_NONE pages at both ends with bait bytes around the slice, "
+    "plus every length 0..193 x every hit position x all 64 alignments; all of it plain and with the vector extensions masked",
+    "Memory safety is observed (guard pages, SetPanicOnFault), not proved; haystacks have at most 2-3 special bytes.",
+    "TLA+ block-scan model checked by TLC; TLC-generated cases replayed into the implementation (three-way)", "DESIGN.md §6 C18")
